@@ -8,6 +8,7 @@ from ..interp import Cat, Closure, Hooks, Interp, Intrinsic, Obj, SimRaise
 from ..nf import Rat
 from . import solverkit, solvers
 from .c15 import forward_run
+from .autograd_kit import AutogradModel
 
 RH = "torchsde/_core/methods/reversible_heun.py"
 ADJ = "torchsde/_core/adjoint.py"
@@ -29,34 +30,40 @@ EXPLANATION = (
 )
 
 
-class AdjHooks(solverkit.StepHooks):
+class AdjHooks(AutogradModel, solverkit.StepHooks):
     def __init__(self):
-        super().__init__(2)
+        solverkit.StepHooks.__init__(self, 2)
+        self.ag_init()
+        self._in_helper = False
         self.vjps = []
 
     def tensor_attr(self, interp, recv, name, node, fi):
+        r = self.ag_tensor_attr(interp, recv, name, node, fi)
+        if r is not NotImplemented:
+            return r
         if name == "requires_grad":
             return False
         return NotImplemented
 
+    def external_call(self, interp, dotted, args, kwargs, node, fi):
+        r = self.ag_external_call(interp, dotted, args, kwargs, node, fi)
+        if r is not NotImplemented:
+            return r
+        return solverkit.StepHooks.external_call(self, interp, dotted, args, kwargs, node, fi)
+
     def on_call(self, interp, callee, args, kwargs, node, fi):
         if isinstance(callee, Closure) and callee.fi is not None and callee.fi.module.relpath.endswith("misc.py"):
             nm = callee.fi.name
-            if nm == "vjp":
+            if nm in ("vjp", "jvp") and not self._in_helper:
                 outputs = kwargs.get("outputs", args[0] if args else None)
                 inputs = kwargs.get("inputs", args[1] if len(args) > 1 else None)
                 go = kwargs.get("grad_outputs")
                 self.vjps.append((outputs, inputs, go, dict(kwargs), node))
-                outs = list(outputs) if isinstance(outputs, (tuple, list)) else [outputs]
-                gos = list(go) if isinstance(go, (tuple, list)) else [go]
-                ins = list(inputs) if isinstance(inputs, (tuple, list)) else [inputs]
-                res = []
-                for i in ins:
-                    tot = Rat.const(0)
-                    for o, g in zip(outs, gos):
-                        tot = tot + nf.linear("VJP", (Rat.lift(o).key(), Rat.lift(i).key()), Rat.lift(g))
-                    res.append(tot)
-                return res
+                self._in_helper = True
+                try:
+                    return interp.call_function(callee.fi, list(args), dict(kwargs))
+                finally:
+                    self._in_helper = False
             if nm == "flatten":
                 return Cat("flat", list(args[0]))
         return NotImplemented
